@@ -2811,8 +2811,8 @@ void mmd_engine_update_metavalue_for_key(mmd_engine * e, const char * key, const
 	for (int i = 0; i < e->metadata_stack->size; ++i) {
 		m = stack_peek_index(e->metadata_stack, i);
 
-		if (strcmp(clean, m->key) == 0) {
-			// We have a match
+		if ((start == -1) && (strcmp(clean, m->key) == 0)) {
+			// We have a match -- the first one is the one that lookups return
 			start = m->start;
 		} else if (start != -1) {
 			// We have already found a match
